@@ -168,7 +168,7 @@ class Rig:
         b, a = self.snap(lim)
         g = self.gen_of.get(id(lim), g)
         self.events.append(dict(ev='grant', c=c, t=ticks(self.loop), n=int(n) if isinstance(n, int) else -1,
-                                cnt=1, g=g, rcur=bool(rcur), reqt=t0, b=b, a=a))
+                                cnt=1, g=g, rcur=bool(rcur), reqt=t0, gt=ticks(self.loop), b=b, a=a))
         hook = self.on_grant.pop(c, None)
         if hook is not None:
             hook()          # e.g. cancel the connection that has just been given the turn, before it runs
@@ -322,9 +322,28 @@ def run_auto(sc: dict) -> list[dict]:
                         t = at
                     rig.set_limit(k)
 
-            tasks = [asyncio.ensure_future(conn(i + 1, p)) for i, p in enumerate(sc['progs'])]
+            async def just_in_time(c):
+                """An adversarial competitor: looks at every clock reading whether a call made now would
+                find tokens while somebody else is waiting for them (probe = a copy of the limiter, asked
+                through its public refill()), and calls take_tokens() exactly then."""
+                while True:
+                    await real_sleep(1 / TPS)
+                    lim = rig.current()
+                    if budget[0] <= 0 or not any(l is lim for _, l in rig.pending.values()):
+                        continue
+                    try:
+                        probe = copy.copy(lim)
+                        empty = probe.refill()
+                    except Exception:
+                        continue
+                    if not empty:
+                        budget[0] -= 1
+                        await rig.request(c)
+
+            tasks = [asyncio.ensure_future(conn(i + 1, p)) for i, p in enumerate(sc['progs']) if p != 'jit']
             tasks.append(asyncio.ensure_future(setter()))
             extra = [asyncio.ensure_future(canceller())] if cancels else []
+            extra += [asyncio.ensure_future(just_in_time(i + 1)) for i, p in enumerate(sc['progs']) if p == 'jit']
             await asyncio.wait(tasks, timeout=sc['dur'] / TPS)
             ev = rig.finish()
             for t in tasks + extra + list(req_task.values()):
@@ -411,6 +430,7 @@ def run_wire(sc: dict) -> list[dict]:
                             if c is not None:
                                 rig.pending.pop(c, None)
                         info[task]['granted'] = True
+                        info[task]['gt'] = ticks(loop)
                         return n
                     return take_tokens
                 patched.append((cls, orig))
@@ -434,13 +454,14 @@ def run_wire(sc: dict) -> list[dict]:
                     i = info.get(task)
                     now = ticks(loop)
                     if i is not None and i['granted']:
-                        lim, reqt, rcur = i['lim'], i['reqt'], i['rcur']
+                        lim, reqt, rcur, gt = i['lim'], i['reqt'], i['rcur'], i['gt']
                         i['granted'] = False
                     else:           # bytes moved without a grant
-                        lim, reqt, rcur = rig.current(), now, True
+                        lim, reqt, rcur, gt = rig.current(), now, True, now
                     b, a = rig.snap(lim)
                     rig.events.append(dict(ev='grant', c=c, t=now, n=len(data), cnt=1,
-                                           g=rig.gen_of.get(id(lim), rig.nset), rcur=bool(rcur), reqt=reqt, b=b, a=a))
+                                           g=rig.gen_of.get(id(lim), rig.nset), rcur=bool(rcur), reqt=reqt, gt=gt,
+                                           b=b, a=a))
                 return cb
 
             async def transfer(c):
@@ -465,7 +486,18 @@ def run_wire(sc: dict) -> list[dict]:
                         sinks.append(asyncio.ensure_future(sink()))
                         await conn.send_file(_MemReader(size), callback=moved(c))
                     else:
-                        ep_writer.write(b'\xa5' * size)
+                        pieces = (sc.get('feeds') or {}).get(str(c)) or (sc.get('feeds') or {}).get(c)
+                        if pieces:          # the peer sends the file in pieces: [(tick since start of the run, bytes)]
+                            async def feeder():
+                                for at, nb in pieces:
+                                    d = at - ticks(loop)
+                                    if d > 0:
+                                        await asyncio.sleep(d / TPS)
+                                    ep_writer.write(b'\xa5' * nb)
+                            sinks.append(asyncio.ensure_future(feeder()))
+                            size = sum(nb for _, nb in pieces)
+                        else:
+                            ep_writer.write(b'\xa5' * size)
                         fh = _MemWriter()
                         await conn.receive_file(fh, size, callback=moved(c))
                         received[c - 1] = fh.n
@@ -539,6 +571,12 @@ def regression_scenarios() -> list[dict]:
     for hi, lo, idle in ((2, 1, 900), (10, 1, 500), (5, 2, 1023), (4, 1, 3000)):
         stim(f'hi-lo-hi-{hi}-{lo}-{idle}', hi, 1,
              drain(hi) + [('set', lo), ('tick', idle), ('set', hi)] + drain(hi) + [('tick', 11)] * 3, d='down' if idle == 500 else 'up')
+    # the same with only part of the high burst used: the bucket of the low limiter starts full and stays
+    # full (a full bucket is not refilled) until the limit is raised again
+    for hi, lo, idle in ((10, 1, 1000), (4, 2, 600), (6, 1, 3000), (3, 3, 2000)):
+        stim(f'hi-lo-hi-replaced-bucket-full-{hi}-{lo}-{idle}', hi, 1,
+             [('req', 1)] * ((hi - lo) * 8) + [('set', lo), ('tick', idle), ('set', hi if hi > lo else hi + 5)] +
+             drain(hi + 5) + [('tick', 11)] * 3)
     # the same with a connection waiting on the replaced limiter
     stim('hi-lo-hi-waiter', 3, 2, drain(3) + [('req', 2), ('set', 1), ('tick', 700), ('set', 3)] + drain(3) + [('tick', 11)] * 20)
     # lowered after idle: the new bucket starts full with an old last_refill
@@ -595,6 +633,29 @@ def regression_scenarios() -> list[dict]:
          cancels=[(50, 2), (400, 3), (1000, 1), (1001, 2), (3000, 3), (3000, 1)])
     auto('saturate-4x-k40-cancels', 40, [[(0, 5000)], [(1, 5000)], [(1, 5000)], [(3, 5000)]], 8 * TPS,
          cancels=[(1100 + 7 * i, 1 + i % 4) for i in range(40)], d='down')
+    # adversarial arrival times: a competitor that calls take_tokens() exactly at the clock readings at
+    # which a call finds tokens while another connection is waiting for them (finer than the poll period)
+    for k in (1, 2, 3, 4, 6):
+        for clock in ('tick', 'float'):
+            auto(f'just-in-time-competitor-k{k}-{clock}', k, [[(0, 100000)], 'jit'], 6 * TPS, clock=clock)
+            auto(f'just-in-time-competitor-3-k{k}-{clock}', k, [[(0, 100000)], [(3, 100000)], 'jit'], 6 * TPS, clock=clock,
+                 d='down')
+    # receive_file blocked in a read (grant in hand, no data yet) while the limit changes, data arriving in
+    # pieces smaller than the grant, a second connection using the new limiter meanwhile
+    def wire_down(name, k0, sets, feeds, starts, dur=6 * TPS):
+        out.append(dict(kind='wire', name=name, k0=k0, n=len(starts), dir='down', sizes=[0] * len(starts), starts=starts,
+                        sets=sets, feeds={str(c): f for c, f in feeds.items()}, cancels=[], dur=dur))
+    for k in (1, 4, 8, 30):
+        wire_down(f'read-pending-unlimited-to-{k}', 0, [(10, k)],
+                  {1: [(50, 100), (60, 60000)], 2: [(20, 200000)]}, [0, 20])
+        wire_down(f'read-pending-unlimited-to-{k}-three', 0, [(10, k)],
+                  {1: [(40, 1), (45, 8191), (700, 30000)], 2: [(12, 200000)], 3: [(30, 50), (31, 50), (90, 100000)]}, [0, 12, 0])
+        wire_down(f'read-pending-{k}-to-unlimited-and-back', k, [(300, 0), (310, k)],
+                  {1: [(0, k * 1024), (305, 10), (330, 10), (400, 50000)], 2: [(320, 100000)]}, [0, 315])
+        wire_down(f'read-pending-{k * 3}-to-{k}', k * 3, [(1500, k)],
+                  {1: [(0, 3 * k * 1024 + 64), (1510, 1), (1530, 40000)], 2: [(1505, 100000)]}, [0, 1500])
+        wire_down(f'short-reads-constant-{k}', k, [],
+                  {1: [(i * 7, 37) for i in range(200)], 2: [(3 + i * 40, 500) for i in range(40)]}, [0, 0])
     for victim in (1, 2, 3):      # one of them polls, two are queued: at least two of these abort a queued one
         out.append(dict(kind='wire', name=f'wire-abort-{victim}-of-three', k0=2, n=3, dir='up', sizes=[20000, 20000, 20000],
                         starts=[0, 1, 2], sets=[], cancels=[(1100, victim)], dur=40 * TPS))
@@ -682,6 +743,8 @@ def random_auto(rng, i) -> dict:
     cancels = []
     if n > 1 and rng.random() < 0.4:
         cancels = sorted((rng.randint(1, dur - 1), rng.randint(1, n)) for _ in range(rng.choice([1, 2, 5, 20])))
+    if n > 1 and rng.random() < 0.15:
+        progs[rng.randrange(1, n)] = 'jit'
     return dict(kind='auto', name=f'rauto{i}', k0=k0, n=n, progs=progs, dur=dur, sets=sets, cancels=cancels,
                 dir=rng.choice(['up', 'down']), clock='float' if rng.random() < 0.2 else 'tick',
                 max_calls=(60000 if kmax > 500 else 20000) // (3 if cancels else 1))
@@ -707,8 +770,26 @@ def random_wire(rng, i) -> dict:
     cancels = []
     if n > 1 and rng.random() < 0.4:
         cancels = [(rng.randint(1, dur - 1), rng.randint(1, n)) for _ in range(rng.choice([1, 1, 2]))]
-    return dict(kind='wire', name=f'rwire{i}', k0=k0, n=n, dir=rng.choice(['up', 'down']), sizes=sizes,
-                starts=[rng.choice([0, 0, 3, 40, 600]) for _ in range(n)], sets=sets, cancels=cancels, dur=dur)
+    direction = rng.choice(['up', 'down'])
+    starts = [rng.choice([0, 0, 3, 40, 600]) for _ in range(n)]
+    feeds = {}
+    if direction == 'down' and rng.random() < 0.6:
+        # the peer sends in pieces (short reads, reads pending while the limit changes)
+        marks = [t for t, _ in sets]
+        for c in range(1, n + 1):
+            if rng.random() < 0.25:
+                continue
+            t, left, pieces = starts[c - 1], sizes[c - 1], []
+            while left > 0 and len(pieces) < 60:
+                t += rng.choice([0, 1, 5, 12, 60, 400] + [max(1, m - t + rng.choice([-3, 2, 15])) for m in marks if m > t])
+                nb = min(left, rng.choice([1, 50, 127, 128, 129, 1000, 8191, 8192, 8193, 50000, left]))
+                pieces.append((t, nb))
+                left -= nb
+            if left > 0:
+                pieces.append((t + 1, left))
+            feeds[str(c)] = pieces
+    return dict(kind='wire', name=f'rwire{i}', k0=k0, n=n, dir=direction, sizes=sizes,
+                starts=starts, sets=sets, cancels=cancels, feeds=feeds, dur=dur)
 
 
 class Hang(KeyboardInterrupt):
@@ -800,6 +881,15 @@ def behaviour_scenarios(chk: Check, num: int, depth: int) -> list[dict]:
 # verdict plumbing
 # ---------------------------------------------------------------------------
 
+def _limit_of(trace, g):
+    ks = [trace[0]['k']] + [e['k'] for e in trace if e['ev'] == 'set']
+    return ks[g - 1] if 1 <= g <= len(ks) else 0
+
+
+def _wait_bound(trace, k):
+    return trace[0]['n'] * ((2 * 128) // max(k, 1) + TPS // 8) + trace[0]['jit']
+
+
 def _fingerprint(tid, info, trace):
     name, kind = info.get('name'), info.get('kind')
     ev = info.get('event') or {}
@@ -808,15 +898,16 @@ def _fingerprint(tid, info, trace):
     if kind == 'property':
         if name == 'BoundedWaitT':
             if not ev:      # attributed by property-dropping: find the record (naming only, not the verdict)
-                bound = trace[0]['n'] * TPS + trace[0]['jit']
                 for j, e in enumerate(trace):
-                    if (e['ev'] == 'grant' and e['t'] - e['reqt'] > bound) or (e['ev'] == 'end' and e['w'] > bound):
+                    if ((e['ev'] == 'grant' and _limit_of(trace, e['g']) and
+                         e['gt'] - e['reqt'] > _wait_bound(trace, _limit_of(trace, e['g']))) or
+                            (e['ev'] == 'end' and e['k'] and e['w'] > _wait_bound(trace, e['k']))):
                         ev, idx = e, j
                         break
             t1 = ev.get('t', 0)
             t0 = ev.get('reqt', t1 - ev.get('w', 0))
             # overtaken: the limiter was still serving others during the last second(s) of the wait
-            bound = trace[0]['n'] * TPS + trace[0]['jit']
+            bound = _wait_bound(trace, ev.get('k') or _limit_of(trace, ev.get('g', 1)) or 1)
             overtaken = any(e['ev'] == 'grant' and max(t0, t1 - bound) < e['t'] <= t1 and e.get('reqt', 0) >= t0
                             and e is not ev for e in trace[:idx])
             if overtaken:
@@ -852,7 +943,7 @@ def _selftest_traces():
         return dict(ev='init', k=k, b=0, a=TPS, n=n, jit=0, timely=timely)
 
     def grant(t, n, g=1, c=1, cnt=1, reqt=None, rcur=True, b=0, a=0):
-        return dict(ev='grant', c=c, t=t, n=n, cnt=cnt, g=g, rcur=rcur, reqt=t if reqt is None else reqt, b=b, a=a)
+        return dict(ev='grant', c=c, t=t, n=n, cnt=cnt, g=g, rcur=rcur, reqt=t if reqt is None else reqt, gt=t, b=b, a=a)
 
     def end(t, w=0, k=0):
         return dict(ev='end', t=t, w=w, k=k)
@@ -862,7 +953,7 @@ def _selftest_traces():
     unl = [init(0), grant(10, 8192, b=0, a=TPS), grant(10, 8192, c=2, b=0, a=TPS), end(20)]
     chg = [init(2), grant(0, 2048, cnt=16), dict(ev='set', t=0, k=2, b=0, a=0), grant(512, 1024, g=2, cnt=8),
            dict(ev='set', t=512, k=1, b=0, a=0), grant(640, 128, g=2, c=2, reqt=500), grant(1536, 1024, g=3, cnt=8),
-           end(1600, w=1000, k=1)]
+           end(1600, w=700, k=1)]
     good = [('limited', lim), ('unlimited', unl), ('limit-changes-and-in-flight-call', chg)]
     bad = []
 
@@ -887,8 +978,8 @@ def _selftest_traces():
 
 
 _EXACT_POSITIONS = [   # (StaleFullBucket, StaleRateOnChange, Fifo)
-    ('code', ('TRUE', 'TRUE', 'FALSE')),
-    ('copy_tokens-and-fifo-repaired', ('TRUE', 'FALSE', 'TRUE')),
+    ('copy_tokens-and-fifo-repaired', ('TRUE', 'FALSE', 'TRUE')),      # the repository since fixes C20-1, C20-2
+    ('code', ('TRUE', 'TRUE', 'FALSE')),                                # the pinned commit
     ('copy_tokens-repaired', ('TRUE', 'FALSE', 'FALSE')),
     ('fifo-repaired', ('TRUE', 'TRUE', 'TRUE')),
     ('all-repaired', ('FALSE', 'FALSE', 'TRUE')),
@@ -1012,6 +1103,7 @@ def run(chk: Check, args):
             'teeth_nofifo': pool.submit(tlc.run_tlc, SPEC, 'MC_teeth_nofifo.cfg', workers=1, timeout=600),
             'teeth_live_nofifo': pool.submit(tlc.run_tlc, SPEC, 'MC_live_nofifo.cfg', workers=1, timeout=600),
             'teeth_deadwaiter': pool.submit(tlc.run_tlc, SPEC, 'MC_teeth_deadwaiter.cfg', workers=1, timeout=600),
+            'teeth_fastpath': pool.submit(tlc.run_tlc, SPEC, 'MC_teeth_fastpath.cfg', workers=1, timeout=600),
         }
         if thorough:
             jobs['scaled_c2'] = pool.submit(tlc.model_check, SPEC, 'MC_scaled_c2.cfg', expect_actions=expect, workers=4, timeout=3000)
@@ -1035,6 +1127,7 @@ def run(chk: Check, args):
         'no_fifo_violates_BoundedBypass': any(i.name == 'BoundedBypass' for i in res['teeth_nofifo'].issues),
         'no_fifo_violates_EventuallyGranted': any(i.kind == 'temporal' for i in res['teeth_live_nofifo'].issues),
         'turn_lost_on_cancelled_waiter_violates_NoStall': any(i.name == 'NoStall' for i in res['teeth_deadwaiter'].issues),
+        'fast_path_in_front_of_the_queue_violates_BoundedBypass': any(i.name == 'BoundedBypass' for i in res['teeth_fastpath'].issues),
     }
     chk.cov['binding_selftest'].update(teeth)
     chk.notes.append(
